@@ -58,14 +58,14 @@ def gen_points(ctx):
     for n in range(0, nmax + 1):
         for p in ([0.0, 0.1, 0.5, 0.9, 1.0] if tier == "quick" else [0.0, 1e-3, 0.05, 0.1, 0.25, 0.4, 0.5, 0.6, 0.75, 0.9, 0.999, 1.0]):
             binom(n, p)
-    Nmax = 9 if tier == "quick" else 40
+    Nmax = 9 if tier == "quick" else 14
     for N in range(0, Nmax + 1):
         for K in range(0, N + 1):
             for n in range(0, N + 1):
                 if tier == "quick" and (N + K + n) % 3: continue
                 hyper(N, K, n)
     # grids on both sides of the switches
-    k = 30 if tier == "quick" else 400
+    k = 30 if tier == "quick" else 120
     for _ in range(k):
         n = rng.choice([rng.below(200), rng.below(10**5), rng.below(10**9), 2**40 + rng.below(1000)])
         p = rng.choice([L(rng, 1e-6, 1.0), 0.5, S.nextafter("f64", 0.5, True), min(1.0, 10.0 / max(n, 1) * rng.choice([0.9, 0.999, 1.001, 1.1])), 1e-20])
@@ -94,7 +94,7 @@ def gen_points(ctx):
 def correspond(ctx):
     rng, tier = ctx["rng"], ctx["tier"]
     pts = gen_points(ctx)
-    nstreams = 3 if tier == "quick" else 20
+    nstreams = 3 if tier == "quick" else 6
     cases = []
     for fam, ty, hp, model in pts:
         for s in range(nstreams if fam != "stdgeometric" else 200):
@@ -153,7 +153,7 @@ def correspond(ctx):
         "rule": "exhaustive small parameter sets (Binomial n <= %d x p-grid; Hypergeometric all (N,K,n) with N <= %d%s) plus seeded grids on both "
                 "sides of every method switch (np around 10, p around 1/2, lambda around 12, p around 2/3 and tiny p, HIN/H2PE with all four reflections, "
                 "Zipf s = 1, < 1, > 1, n = 1) x word streams (random and single-word adversarial): same integer and same word count as the Coq model"
-                % (8 if tier == "quick" else 30, 9 if tier == "quick" else 40, " (one third at quick tier)" if tier == "quick" else ""),
+                % (8 if tier == "quick" else 30, 9 if tier == "quick" else 14, " (one third at quick tier)" if tier == "quick" else ""),
         "samples": [lines[0][:200], lines[len(lines) // 2][:200], lines[-1][:200]],
         "mismatches": mismatches, "oracle_failures": oracle_failures,
         "extra": {"per_family": per, "case_stats": stats, "parameter_points": len(pts), "distinct_model_paths": model_paths},
